@@ -445,6 +445,32 @@ func tlvStructFamily(a *Args) error {
 			}
 			lines = append(lines, o)
 			nm++
+			// a nested struct held by pointer that is absent: nothing to encode, the rest of the value round-trips
+			if k == 0 {
+				type withPtr struct {
+					A uint8  `tlv8:"1"`
+					P *small `tlv8:"3"`
+					Z uint16 `tlv8:"4"`
+				}
+				op := J{"ev": "marshal-nilptr", "case": b.ID, "i": 0, "shape": s.Shape, "panic": false, "roundtrip": false}
+				func() {
+					defer func() {
+						if r := recover(); r != nil {
+							op["panic"] = true
+						}
+					}()
+					in := withPtr{A: uint8(1 + rng.Intn(200)), Z: uint16(1 + rng.Intn(60000))}
+					enc, err := tlv8.Marshal(in)
+					if err != nil {
+						return
+					}
+					var out withPtr
+					if tlv8.Unmarshal(enc, &out) == nil {
+						op["roundtrip"] = out.A == in.A && out.Z == in.Z && out.P == nil
+					}
+				}()
+				lines = append(lines, op)
+			}
 			// arbitrary / damaged bytes into Unmarshal
 			for d := 0; d < 3; d++ {
 				var in []byte
